@@ -42,6 +42,11 @@ def _gen(ci, dom, plan):
             # a few unbuffered ops, then enter
             if plan["pre"] > 0:
                 plan["pre"] -= 1
+                if draw(st.integers(0, 2)) == 0:
+                    # a child handle retained from BEFORE the buffered phase
+                    s = gen.draw_take(draw, w)
+                    if s is not None:
+                        return s
                 return _op(draw, w, dom)
             plan["phase"] = "enter"
             plan["todo"] = ([("cls", roots[0])] if plan["mode"] in ("cls", "both") else []) + \
